@@ -1,0 +1,37 @@
+//go:build verif
+
+package doif
+
+// Verification-only accessors (build tag `verif`): the current-time value of ts_cmp nodes in
+// "now" mode is written by a background goroutine; a harness pins it to a chosen instant.
+
+func verifWalkTs(n Node, f func(*tsCmpOpNode)) {
+	switch t := n.(type) {
+	case *tsCmpOpNode:
+		f(t)
+	case *logicalNode:
+		for _, op := range t.operands {
+			verifWalkTs(op, f)
+		}
+	}
+}
+
+// VerifSetNow stores ns as the "now" value of every ts_cmp node in now mode.
+func VerifSetNow(c *Checker, ns int64) {
+	verifWalkTs(c.root, func(t *tsCmpOpNode) {
+		if t.cmpValChangeMode == cmpValChangeModeNow {
+			t.varCmpValue.Store(ns)
+		}
+	})
+}
+
+// VerifNowIs reports whether every ts_cmp node in now mode still holds ns.
+func VerifNowIs(c *Checker, ns int64) bool {
+	ok := true
+	verifWalkTs(c.root, func(t *tsCmpOpNode) {
+		if t.cmpValChangeMode == cmpValChangeModeNow && t.varCmpValue.Load() != ns {
+			ok = false
+		}
+	})
+	return ok
+}
